@@ -5,6 +5,7 @@ from lib.common import Report, generate, run_jobs
 
 HELPERS = """:- use_module(library(iso_ext)).
 :- use_module(library(lists)).
+:- use_module(library(freeze)).
 :- dynamic(logged/1).
 :- dynamic(d/1).
 :- dynamic(d0/1).
@@ -12,6 +13,7 @@ log(T) :- assertz(logged(T)).
 t(1). t(2). t(3).
 app([],X,X).
 app([H|T],Y,[H|R]) :- app(T,Y,R).
+big(1,[0,0,0,0,0,0,0,0]).
 rev([],[]).
 rev([H|T],R) :- rev(T,RT), app(RT,[H],R).
 reset_state :- retractall(logged(_)), retractall(d(_)), retractall(d0(_)), assertz(d0(0)).
@@ -25,6 +27,8 @@ WORK = {
     5: "findall(X-Y, app(X,Y,[a,b]), L), log(L)",
     6: "( \\\\+ t(5) -> log(no) ; log(yes) ), once(t(Y)), log(Y)",
     7: "findall(Y, catch((t(Y), log(Y)), B, true), L), retract(d0(Z)), log(L-Z)",
+    8: "freeze(X, log(woke(X))), big(X, L), log(L)",
+    9: "( freeze(X, (log(w), t(X))), t(Y), X = Y, log(Y), fail ; true )",
 }
 BATTERY = [("findall(X, t(X), L).", "L", "[1,2,3]"), ("rev([a,b],R).", "R", "[b,a]"),
            ("catch(throw(b), B, true).", "B", "b"), ("X is 2+3.", "X", "5"),
@@ -151,7 +155,7 @@ def run(prop, kind, tier, meta_note):
         rep.sample({"workload": query(kind, w), "fault_points": len(points[w]),
                     "spec_outcomes": [json.loads(x) for x in sorted(allowed[w])][:4]})
     rep.traces = sum(len(p) for p in points.values())
-    rep.rule = ("7 workloads x fault points (interrupt: the n-th dispatched instruction, every n for the first 400 then strided; "
+    rep.rule = ("%d workloads x fault points (interrupt: the n-th dispatched instruction, every n for the first 400 then strided; "
                 "memory: heap declared full d bytes ahead, d in steps of 8); the observed outcome (answers, ball, log, database) must be "
                 "one of the outcomes the specification allows for some fault step, and a follow-up battery must answer as on a fresh machine. "
                 "distinct = (workload, phase)")
